@@ -31,6 +31,28 @@ Driver
     quara reports must be that earliest-first shape (or a merge of adjacent
     axes of it - a Povm carries no multi-shape, which is not judged).
 
+History / combination steps (same oracles, nothing more demanded; keys that can only come from such a step carry a suffix)
+  * provenance / options: operands of a chain are, with probability 0.3 each, not the directly constructed object but one
+    reached through ``copy()``, ``generate_from_var(to_var())`` or a constructor call with ``is_physicality_required=False``
+    (and in 8 % of the cases the whole operand list went through a pickle round trip, the way quara stores simulation
+    results); 4- and 6-outcome MProcess operands are built with the constructor option ``shape=(2, m/2)`` in 40 % of the
+    cases.  A derived operand is used only when its raw arrays reproduce the source to 1e-12 (what copy() does is not
+    this property's business; the eps_zero a route drops - MProcess.copy() does - is read back from the object);
+  * re-query (":second-call"): after all bracketings have been evaluated and judged, other calls are made (in half of
+    the cases a TWIN chain - same pattern, same outcome counts, same composite system, other operands - is evaluated
+    and judged against its own reference; the same Gate / MProcess object in both slots of one call; an operand KEPT
+    from the previous case of the shard with an operand of this case; a short chain on a SIBLING composite system -
+    another shape, or the same shape with another identity-first basis - living in the same process), then one bracketing or the flat call is evaluated AGAIN on the
+    same operand objects and judged by the same oracles (reference, agreement with the first pass, shape, index access);
+    the results of the first pass are then READ again (":result-changed-after-later-calls");
+  * setter (":after-setter"): in a third of the cases with an MProcess one of them is switched to sampling mode through
+    the public ``set_mode_sampling``, used once (a sampled post-state: outside the statement, not judged), switched back,
+    and the second pass then runs on it;
+  * generate_mprocess: on the SAME Povm object the modes are asked again in another order with other post-selected
+    states and the other argument form (":second-call"), a second POVM of the same outcome count and a POVM kept from
+    the previous case (":re-used-object") are asked in between, the POVM is also reached through copy() /
+    generate_from_var (":via-copy", ":via-from-var"), and the MProcesses generated first are queried again at the end.
+
 Exceptions: composing physical operands must not raise.  quara tests its results at atol=1e-13 and is free (C01) to
 reject anything not physical to 1e-14, so an exception counts only when both operands are physical to 1e-14; for a
 "not physically correct" exception the step is re-run on copies that do not demand quara's test and the values are
@@ -58,7 +80,13 @@ RULE = ("every type-valid chain pattern [State](Gate|MProcess)*[Povm] of length 
         "for generate_mprocess / to_povm, and threshold cases (a branch of weight 2..30 x eps_zero entering a second measurement, "
         "eps_zero in {1e-8,1e-6}; outcome probabilities 0, 3e-9 .. 1e-3). A case is distinct by (pattern, shape, outcome counts, rounded operand parameters) "
         "and non-trivial when it contains at least one non-identity operation acting on an asymmetric operand (always true "
-        "for the random complex operands) - cases whose operand construction failed are not counted")
+        "for the random complex operands) - cases whose operand construction failed are not counted. History steps in every case: "
+        "operands reached through copy() / generate_from_var / pickle / is_physicality_required=False / shape=(2,m/2); the same "
+        "operand objects composed a second time after other calls (same object in both slots, an operand kept from the previous "
+        "case, a twin chain of the same pattern and counts, a short chain on a sibling composite system of another shape or basis, "
+        "set_mode_sampling on and off), first "
+        "results read again afterwards; generate_mprocess asked repeatedly on one Povm object in other orders / with other "
+        "post-selected states, interleaved with a second and a kept POVM")
 OP = "quara/objects/operators.py:"
 ANCHORS = [
     OP + "compose_qoperations", OP + "_compose_qoperations", OP + "_compose_qoperations_MProcess_MProcess",
@@ -90,6 +118,9 @@ ASSUMPTIONS = [
     "that its error is weighted by min(1, p*tol_pass/1e-14) (round-off of sigma/p)",
     "Lueders mode (1): 'spectral projectors' = eigenspace projectors; eigenvalues closer than 1e-9 count as one eigenvalue "
     "(violations there carry the key suffix ':degenerate-eigenvalues'); an element with a gap in (1e-9, 1e-3) is not judged",
+    "history steps: an operand reached through copy() / generate_from_var / pickle / a relaxed constructor call is used only "
+    "when its raw arrays reproduce the directly constructed one to 1e-12 (what those routes return is not judged here); an "
+    "MProcess in sampling mode applied to a State / StateEnsemble returns a sampled post-state, which is not judged",
 ]
 
 TOL = (1e-9, 1e-6)
@@ -294,6 +325,11 @@ class Frames:
         if f is None or f.c_sys is not c_sys:
             f = self.cache[k] = Frame(c_sys)
         return f
+
+    def trim(self, keep):
+        """forget the frames of composite systems other than `keep` (unpickled copies live for one case)"""
+        ids = {id(c) for c in keep}
+        self.cache = {k: f for k, f in self.cache.items() if k in ids}
 
 
 def csys_of(obj):
@@ -614,10 +650,18 @@ def install(ctx):
     hs = HookSet(ctx)
     J = Judge(ctx)
 
+    def sampling(t1, t2, elem1):
+        """an MProcess in sampling mode applied to a State / StateEnsemble returns a SAMPLED post-state: not covered by the
+        statement, not judged (the history step switches the mode on and off through the public setter)"""
+        return t1 == "MProcess" and t2 in ("State", "StateEnsemble") and bool(getattr(elem1, "mode_sampling", False))
+
     # ---- binary dispatcher: the step oracle
     def post_step(result, snap, elem1, elem2, from_exc=False):
         t1, t2 = gen.type_of(elem1), gen.type_of(elem2)
         if (t1, t2) not in VALID:
+            return True
+        if sampling(t1, t2, elem1):
+            ctx.count("step:not-judged(sampling mode)")
             return True
         pair = f"{t1}*{t2}"
         a, b = read(elem1, J.frames), read(elem2, J.frames)
@@ -651,6 +695,9 @@ def install(ctx):
             exc._qv_seen = True
         except Exception:
             pass
+        if sampling(t1, t2, elem1):
+            ctx.count("exception-not-judged:sampling-mode")
+            return
         if csys_of(elem1) != csys_of(elem2):
             return
         if not operands_physical([elem1, elem2], 1e-14):
@@ -890,8 +937,9 @@ def aim_element_zero(phis, v, rng, p_target):
 class Builder:
     """operands of one chain: quara objects + truth twins from the generator's operators"""
 
-    def __init__(self, ctx, J, hs, c_sys, rng):
+    def __init__(self, ctx, J, hs, c_sys, rng, hrng=None):
         self.ctx, self.J, self.hs, self.c_sys, self.rng = ctx, J, hs, c_sys, rng
+        self.hrng = hrng  # stream of the history / option decisions (None: none are taken)
         self.F = J.frames.of(c_sys)
         self.d = self.F.d
         self.v = None  # running pure vector of one branch (for impossible outcomes)
@@ -1025,13 +1073,17 @@ class Builder:
             self.v = None
             kind = f"from-povm:{pk}:mode={mode}"
             self.raw.append(np.array(Ms))
+        shape = (m,)
         if obj is None:
             hss = [np.ascontiguousarray(self.F.hs_of_sup(S).real) for S in Ss]
-            obj = gen.make_mprocess(self.c_sys, hss=hss, is_physicality_required=True, eps_zero=eps_zero)
+            if self.hrng is not None and m in (4, 6) and self.hrng.random() < 0.4:
+                shape = (2, m // 2)  # constructor option: the same outcomes labelled by two indices (row-major)
+            obj = gen.make_mprocess(self.c_sys, hss=hss, shape=shape, is_physicality_required=True, eps_zero=eps_zero)
         else:
             eps_zero = float(obj.eps_zero)
-        self.descr.append(f"MProcess[{kind},m={m},eps_zero={eps_zero:g}]")
-        return obj, tw_mprocess(Ss, (m,), eps_zero)
+            shape = tuple(int(x) for x in obj.shape)
+        self.descr.append(f"MProcess[{kind},m={m},eps_zero={eps_zero:g}" + (f",shape={shape}" if len(shape) > 1 else "") + "]")
+        return obj, tw_mprocess(Ss, shape, eps_zero)
 
 
 def outcome_counts(pattern, rng):
@@ -1045,10 +1097,85 @@ def outcome_counts(pattern, rng):
     return dict(zip(idx, cnt))
 
 
-def run_chain_case(ctx, hs, J, c_sys, pattern, shape_name, comp, plan=None):
-    """plan: optional {position: kwargs of the Builder method} and {"counts": {...}} forcing operand kinds (edge shards)"""
-    rng = ctx.rng()
-    B = Builder(ctx, J, hs, c_sys, rng)
+def same_operand(a, b):
+    """do two quara objects carry the same raw arrays (1e-12) and the same outcome labelling?"""
+    if gen.type_of(a) != gen.type_of(b) or reported_shape(a) != reported_shape(b):
+        return False
+    x, y = raw_stat(a), raw_stat(b)
+    return x.shape == y.shape and (not x.size or float(np.max(np.abs(x - y))) <= 1e-12)
+
+
+def derive(ctx, obj, route):
+    """the operand reached through another public route, or None when the route raised or does not reproduce the source
+    (neither is a statement of this property: counted, and the directly constructed operand is used)"""
+    fn = {"copy": lambda: obj.copy(), "from-var": lambda: obj.generate_from_var(obj.to_var()), "relaxed-flag": lambda: relaxed(obj)}[route]
+    ok, new = ctx.attempt(fn)
+    if not ok:
+        if ctx.exc_site(new) == "outside-quara":
+            raise new
+        ctx.count(f"provenance:{route}:raised(not judged here)")
+        return None
+    if not same_operand(obj, new):
+        ctx.count(f"provenance:{route}:does-not-reproduce-the-source(not judged here)")
+        return None
+    ctx.count(f"provenance:{route}")
+    return new
+
+
+def provenance(ctx, hrng, objs, tws, keep_eps):
+    """operands as a program would really hold them: copies, objects rebuilt from their variables, unpickled objects,
+    objects that do not demand quara's physicality test.  Returns (operands, {position: route})."""
+    import pickle
+
+    out, how = list(objs), {}
+    if hrng.random() < 0.08:
+        ok, new = ctx.attempt(lambda: pickle.loads(pickle.dumps(out)))
+        if ok and len(new) == len(out) and all(same_operand(a, b) for a, b in zip(out, new)):
+            out, how = list(new), {i: "pickle" for i in range(len(out))}
+            ctx.count("provenance:pickle")
+        else:
+            ctx.count("provenance:pickle:not-usable(not judged here)")
+    # routes that rebuild an MProcess through the constructor defaults lose a non-default eps_zero (MProcess.copy() does):
+    # the threshold cases keep theirs
+    routes = ("relaxed-flag",) if keep_eps else ("copy", "from-var", "relaxed-flag")
+    for i, o in enumerate(out):
+        if hrng.random() < 0.3:
+            route = str(hrng.choice(routes))
+            new = derive(ctx, o, route)
+            if new is not None:
+                out[i] = new
+                how[i] = (how[i] + "+" if i in how else "") + route
+    for i, o in enumerate(out):
+        if tws[i]["t"] == "MProcess":
+            tws[i] = dict(tws[i], eps_zero=float(o.eps_zero))
+    return out, how
+
+
+def mixed_csys(dims):
+    """composite system whose local bases are identity-first, Hermitian, orthonormal but NOT the standard ones (elements 1
+    and 2 rotated into each other): a sibling of the same shape with other HS matrices for the same maps"""
+    Q = gen.q()
+    es = []
+    for n, dim in enumerate(dims):
+        std = [ref.dense(b) for b in gen.local_basis(dim, "std")]
+        c, s = np.cos(0.7), np.sin(0.7)
+        new = list(std)
+        new[1] = c * std[1] + s * std[2]
+        new[2] = -s * std[1] + c * std[2]
+        es.append(Q.ElementalSystem(n, Q.mb.MatrixBasis(new)))
+    return Q.CompositeSystem(es)
+
+
+SIB_PATTERNS = ["SMP", "SMM", "MGP", "SGM", "GMP"]
+
+
+def run_chain_case(ctx, hs, J, c_sys, pattern, shape_name, comp, plan=None, rng=None, hist=None, only=None, label="chain"):
+    """plan: optional {position: kwargs of the Builder method} and {"counts": {...}} forcing operand kinds (edge shards).
+    hist: None (no history steps: the twin chains and the short chains on sibling systems) or the shard's dict of kept
+    objects / sibling systems.  only: evaluate just this form ("flat" or one parenthesisation) instead of all of them."""
+    rng = rng if rng is not None else ctx.rng()
+    hrng = ctx.rng(11) if hist is not None else None
+    B = Builder(ctx, J, hs, c_sys, rng, hrng)
     plan = plan or {}
     counts = plan.get("counts") or outcome_counts(pattern, rng)
     objs, tws = [], []
@@ -1065,6 +1192,10 @@ def run_chain_case(ctx, hs, J, c_sys, pattern, shape_name, comp, plan=None):
         objs.append(val[0])
         tws.append(val[1])
     n = len(pattern)
+    objs0 = list(objs)  # as constructed (kept for the next case)
+    how = {}
+    if hrng is not None:
+        objs, how = provenance(ctx, hrng, objs, tws, keep_eps=bool(plan))
     # quara argument order = reversed time order
     args = objs[::-1]
     names = [f"{c}{n - 1 - k}" for k, c in enumerate(pattern[::-1])]
@@ -1078,17 +1209,17 @@ def run_chain_case(ctx, hs, J, c_sys, pattern, shape_name, comp, plan=None):
     tp, tf, trunc = (tol0[0], tol0[1], False) if p_ref is None else prob_tols(p_ref, eps, n - 1, tol0)
     info = {"pattern_time_order": pattern, "shape": shape_name, "operands_time_order": B.descr, "counts": [counts[i] for i in sorted(counts)],
             "truncation_zone": trunc}
+    if how:
+        info["operands_reached_through"] = {f"{pattern[i]}{i}": r for i, r in sorted(how.items())}
 
-    memo = {}
-
-    def ev(t):
+    def ev(t, memo, sfx=""):
         """(ok, result, culprits)"""
         if isinstance(t, int):
             return True, args[t], frozenset()
         if t in memo:
             return memo[t]
-        okL, L, cL = ev(t[0])
-        okR, R, cR = ev(t[1])
+        okL, L, cL = ev(t[0], memo, sfx)
+        okR, R, cR = ev(t[1], memo, sfx)
         if not (okL and okR):
             memo[t] = (False, None, cL | cR)
             return memo[t]
@@ -1096,21 +1227,22 @@ def run_chain_case(ctx, hs, J, c_sys, pattern, shape_name, comp, plan=None):
         ok, res = ctx.attempt(comp, L, R)
         cul = cL | cR | frozenset(J.flagged)
         if not ok and not getattr(res, "_qv_seen", False):
-            ctx.violation("compose:chain:" + ctx.exc_key(res), dict(info, bracketing=tree_str(t, names), message=str(res)[:200]))
+            ctx.violation("compose:chain:" + ctx.exc_key(res) + sfx, dict(info, bracketing=tree_str(t, names), message=str(res)[:200]))
         memo[t] = (ok, res if ok else None, cul)
         return memo[t]
 
+    memo = {}
     results = []
-    for t in trees(0, n):
-        ok, res, cul = ev(t)
+    for t in (trees(0, n) if only is None else [only] if only != "flat" else []):
+        ok, res, cul = ev(t, memo)
         ctx.count("bracketings-evaluated")
         if ok:
             results.append((t, res, cul))
         else:
             ctx.count("bracketings-raised")
     # the flat n-ary call (and list forms) as further "bracketings"
-    extra = [("flat", lambda: comp(*args))]
-    if n >= 3:
+    extra = [("flat", lambda: comp(*args))] if only in (None, "flat") else []
+    if n >= 3 and only is None:
         extra.append(("list", lambda: comp(list(args))))
         k = int(rng.integers(1, n))
         extra.append(("mixed-list", lambda: comp(*args[:k], list(args[k:]))))
@@ -1131,54 +1263,173 @@ def run_chain_case(ctx, hs, J, c_sys, pattern, shape_name, comp, plan=None):
 
     if not results:
         return
-    # (1) all parenthesisations agree, as arrays in the same order
-    if len(results) >= 2:
-        base = raw_stat(results[0][1])
+    fin = tw_shape(truth)
+    want = tw_arrays(truth)
+
+    def agree(first, others, sfx=""):
+        """(1) all parenthesisations agree, as arrays in the same order"""
+        base = raw_stat(first[1])
         worst, who, cul = 0.0, None, frozenset()
-        for t, res, c in results[1:]:
+        for t, res, c in others:
             s = raw_stat(res)
             e = float(np.max(np.abs(s - base))) if s.shape == base.shape else float("inf")
             if e >= worst:
                 worst, who = e, t
             if e >= tf:
-                cul = cul | c | results[0][2]
-        ctx.num("chain:bracketings-agree", worst if np.isfinite(worst) else 1e300, tp, tf, key="compose:chain:bracketings-disagree:" + cstr(cul),
-                info=dict(info, first=tname(results[0][0]), other=tname(who) if who is not None else None))
-    # (2) each equals the reference joint statistics, earliest measurement first; (3) shape; (4) physical
-    fin = tw_shape(truth)
-    want = tw_arrays(truth)
-    for t, res, c in results:
-        if gen.type_of(res) != truth["t"]:
-            ctx.truth("chain:vs-reference", False, key="compose:chain:result-type:" + cstr(c), info=dict(info, bracketing=tname(t), got=gen.type_of(res), want=truth["t"]))
-            continue
-        got = read(res, J.frames)
-        e = max_diff(tw_arrays(got), want)
-        ctx.num("chain:vs-reference", e if np.isfinite(e) else 1e300, tp, tf, key="compose:chain:differs-from-reference:" + cstr(c),
-                info=dict(info, bracketing=tname(t)))
-        if fin:
-            rep = reported_shape(res)
-            okshape = merges_of(rep, fin)
-            ctx.truth("chain:shape", okshape, key="compose:chain:shape-not-earliest-first:" + cstr(c),
-                      info=dict(info, bracketing=tname(t), reported=list(rep), earliest_first=list(fin)))
-            if len(rep) > 1:
-                index_access(ctx, res, rep, got, info)
-    # to_povm of an MProcess result = POVM of the chain
-    if truth["t"] == "MProcess" and not results[0][2]:
-        res = results[0][1]
+                cul = cul | c | first[2]
+        ctx.num("chain:bracketings-agree", worst if np.isfinite(worst) else 1e300, tp, tf, key="compose:chain:bracketings-disagree:" + cstr(cul) + sfx,
+                info=dict(info, first=tname(first[0]), other=(tname(who) + sfx) if who is not None else None))
+
+    def versus_reference(entries, sfx=""):
+        """(2) each equals the reference joint statistics, earliest measurement first; (3) shape; multi-index access.
+        Returns the entries whose values passed."""
+        good = []
+        for t, res, c in entries:
+            if gen.type_of(res) != truth["t"]:
+                ctx.truth("chain:vs-reference", False, key="compose:chain:result-type:" + cstr(c) + sfx,
+                          info=dict(info, bracketing=tname(t), got=gen.type_of(res), want=truth["t"]))
+                continue
+            got = read(res, J.frames)
+            e = max_diff(tw_arrays(got), want)
+            if ctx.num("chain:vs-reference", e if np.isfinite(e) else 1e300, tp, tf, key="compose:chain:differs-from-reference:" + cstr(c) + sfx,
+                       info=dict(info, bracketing=tname(t))) == "pass":
+                good.append((t, res, c))
+            if fin:
+                rep = reported_shape(res)
+                okshape = merges_of(rep, fin)
+                ctx.truth("chain:shape", okshape, key="compose:chain:shape-not-earliest-first:" + cstr(c) + sfx,
+                          info=dict(info, bracketing=tname(t), reported=list(rep), earliest_first=list(fin)))
+                if len(rep) > 1:
+                    index_access(ctx, res, rep, got, info, sfx)
+        return good
+
+    def chain_povm(res, c, sfx=""):
+        """to_povm of an MProcess result = POVM of the chain"""
         ok, pv = ctx.attempt(res.to_povm)
         if ok:
             I = np.eye(B.d, dtype=complex)
             e = max_diff([B.F.op(v) for v in pv.vecs], [dual(S, I) for S in truth["Ss"]])
-            ctx.num("chain:to_povm-vs-reference", e if np.isfinite(e) else 1e300, *tol0, key="compose:chain:to_povm-differs-from-reference:" + cstr(results[0][2]), info=info)
+            ctx.num("chain:to_povm-vs-reference", e if np.isfinite(e) else 1e300, *tol0, key="compose:chain:to_povm-differs-from-reference:" + cstr(c) + sfx, info=info)
+        elif operands_physical([res], 1e-14):
+            ctx.violation("MProcess.to_povm:" + ctx.exc_key(pv) + sfx, info)
         else:
-            ctx.violation("MProcess.to_povm:" + ctx.exc_key(pv), info)
-    ctx.nontrivial("chain" if not plan else "edge", pattern, shape_name, [counts[i] for i in sorted(counts)], [np.asarray(r).ravel() for r in B.raw])
-    if ctx.cur_case is not None and ctx.cur_case < 2:
+            # same rule as for the composition steps: quara tests the induced POVM at atol=1e-13 (in its own norm) and is
+            # free to refuse what is not physical to 1e-14 - a product containing a mode-0 (square-root) MProcess can be
+            # trace-preserving to 1e-13 only
+            ctx.count("exception-not-judged:to_povm:mprocess-not-physical-to-1e-14")
+
+    if len(results) >= 2:
+        agree(results[0], results[1:])
+    good = versus_reference(results)
+    if truth["t"] == "MProcess" and not results[0][2]:
+        chain_povm(results[0][1], results[0][2])
+
+    # ---------------------------------------------------------------- history: the same objects, asked again
+    if hrng is not None:
+        forms = list(trees(0, n))
+        if hrng.random() < 0.5:
+            # a TWIN chain in between: same pattern, same outcome counts, same composite system, other operands
+            ctx.count("history:twin-chain-in-between")
+            run_chain_case(ctx, hs, J, c_sys, pattern, shape_name, comp, plan=dict(plan, counts=counts), rng=np.random.default_rng(int(hrng.integers(1 << 62))),
+                           hist=None, only="flat" if hrng.random() < 0.5 else forms[int(hrng.integers(len(forms)))], label=label)
+        sfx = between_calls(ctx, hs, J, comp, hrng, hist, pattern, objs, objs0, info)
+        if sfx is not None:
+            pick = "flat" if (n >= 3 and hrng.random() < 0.5) else forms[int(hrng.integers(len(forms)))]
+            J.flagged = set()
+            if pick == "flat":
+                ok, res = ctx.attempt(comp, *args)
+                cul = frozenset(J.flagged)
+                if not ok and not getattr(res, "_qv_seen", False):
+                    ctx.violation("compose:chain:" + ctx.exc_key(res) + sfx, dict(info, bracketing="flat" + sfx, message=str(res)[:200]))
+            else:
+                ok, res, cul = ev(pick, {}, sfx)
+            ctx.count("history:second-pass" + sfx)
+            if ok:
+                again = [(pick, res, cul)]
+                agree(results[0], again, sfx)
+                versus_reference(again, sfx)
+                if truth["t"] == "MProcess" and not cul:
+                    chain_povm(res, cul, sfx)
+                if truth["t"] == "MProcess" and not results[0][2]:
+                    chain_povm(results[0][1], results[0][2], ":second-call")
+            else:
+                ctx.count("history:second-pass-raised")
+        # what the first pass returned must still be what it was, whatever has been called since
+        for t, res, c in good:
+            e = max_diff(tw_arrays(read(res, J.frames)), want)
+            ctx.num("chain:first-results-read-again", e if np.isfinite(e) else 1e300, tp, tf, key="compose:chain:result-changed-after-later-calls:" + truth["t"],
+                    info=dict(info, bracketing=tname(t)))
+        hist["kept"] = objs0
+    ctx.nontrivial(label, pattern, shape_name, [counts[i] for i in sorted(counts)], [np.asarray(r).ravel() for r in B.raw])
+    if hist is not None and ctx.cur_case is not None and ctx.cur_case < 2:
         ctx.sample({"pattern_time_order": pattern, "shape": shape_name, "operands": B.descr, "bracketings": [tname(t) for t, _, _ in results][:8],
                     "result_type": truth["t"], "earliest_first_shape": list(fin), "reference_probabilities": p_ref})
 
 
-def index_access(ctx, res, rep, got, info):
+def between_calls(ctx, hs, J, comp, hrng, hist, pattern, objs, objs0, info):
+    """calls made between the first and the second pass over one chain: none of them may change what the chain's operands
+    mean.  Every composition is judged by the step contracts.  Returns the key suffix of the second pass (None: no second
+    pass possible)."""
+    sfx = ":second-call"
+
+    def call(what, a, b):
+        J.flagged = set()
+        ok, r = ctx.attempt(comp, a, b)
+        ctx.count("history:" + what)
+        if not ok and not getattr(r, "_qv_seen", False):
+            ctx.violation("compose:chain:" + ctx.exc_key(r) + ":" + what, dict(info, message=str(r)[:200]))
+
+    # the same object in both slots of one call (Gate o Gate, MProcess o MProcess)
+    cand = [o for o, c in zip(objs, pattern) if c == "G" or (c == "M" and len(o.hss) <= 4)]
+    if cand and hrng.random() < 0.5:
+        x = cand[int(hrng.integers(len(cand)))]
+        call("same-object-in-both-slots", x, x)
+    # an operand kept from the previous case of this shard (same composite system) with an operand of this case
+    # (its decisions come from a stream of their own: a replay of this case alone has no kept objects and must not shift
+    # the other decisions)
+    kept = hist.get("kept")
+    krng = ctx.rng(12)
+    if kept and krng.random() < 0.6:
+        pairs = [(a, b) for a in kept for b in objs0 if (gen.type_of(a), gen.type_of(b)) in VALID]
+        pairs += [(b, a) for a in kept for b in objs0 if (gen.type_of(b), gen.type_of(a)) in VALID]
+        pairs = [(a, b) for a, b in pairs if len(getattr(a, "hss", ())) * len(getattr(b, "hss", ())) <= 25]
+        if pairs:
+            a, b = pairs[int(krng.integers(len(pairs)))]
+            call("kept-operand-with-new-partner", a, b)
+    # a short chain on a sibling composite system (other shape / other basis) in the same process
+    sibs = hist.get("sibs")
+    if sibs and hrng.random() < 0.2:
+        name, sc = sibs[int(hrng.integers(len(sibs)))]
+        pat = SIB_PATTERNS[int(hrng.integers(len(SIB_PATTERNS)))]
+        ctx.count("history:sibling-system-chain:" + name)
+        run_chain_case(ctx, hs, J, sc, pat, name, comp, rng=np.random.default_rng(int(hrng.integers(1 << 62))), hist=None)
+    # public setter on an operand: sampling mode on, one use, off again
+    ms = [o for o, c in zip(objs, pattern) if c == "M"]
+    if ms and hrng.random() < 0.35:
+        M = ms[int(hrng.integers(len(ms)))]
+        if pattern[0] == "S":
+            st = objs[0]
+        else:
+            F = J.frames.of(M.composite_system)
+            ok, st = ctx.attempt(gen.make_state, M.composite_system, ref.rand_density(F.d, hrng), is_physicality_required=True)
+            if not ok:
+                st = None
+        ok, e = ctx.attempt(M.set_mode_sampling, True, int(hrng.integers(1 << 30)))
+        if ok:
+            if st is not None:
+                ctx.attempt(comp, M, st)  # a sampled post-state (or scipy refusing the probabilities): not judged
+            ok, e = ctx.attempt(M.set_mode_sampling, False)
+            if not ok:
+                ctx.count("history:set_mode_sampling(False)-raised(not judged here)")
+                return None
+            ctx.count("history:set_mode_sampling-on-and-off")
+            sfx = ":after-setter"
+        else:
+            ctx.count("history:set_mode_sampling(True)-raised(not judged here)")
+    return sfx
+
+
+def index_access(ctx, res, rep, got, info, sfx=""):
     """multi-index access must address the outcome with that label (row-major over the reported shape)"""
     t = gen.type_of(res)
     worst = 0.0
@@ -1198,15 +1449,16 @@ def index_access(ctx, res, rep, got, info):
         else:
             return
         if not ok:
-            ctx.violation(f"{t}.index-access:" + ctx.exc_key(v), dict(info, index=list(idx)))
+            ctx.violation(f"{t}.index-access:" + ctx.exc_key(v) + sfx, dict(info, index=list(idx)))
             return
         worst = max(worst, float(np.max(np.abs(np.asarray(ref.dense(v) if t == "MProcess" else v) - w))))
-    ctx.num("chain:multi-index-access", worst, 0.0, 1e-300, key=f"{t}.index-access:not-row-major-over-reported-shape", info=info)
+    ctx.num("chain:multi-index-access", worst, 0.0, 1e-300, key=f"{t}.index-access:not-row-major-over-reported-shape" + sfx, info=info)
 
 
-def run_gm_case(ctx, hs, J, c_sys, shape_name, comp):
+def run_gm_case(ctx, hs, J, c_sys, shape_name, comp, hist=None):
     """POVM -> MProcess in every back-action mode; consistency with the POVM on a state"""
     rng = ctx.rng()
+    hrng = ctx.rng(11) if hist is not None else None
     B = Builder(ctx, J, hs, c_sys, rng)
     d = B.d
     st, tst = B.state()
@@ -1238,61 +1490,120 @@ def run_gm_case(ctx, hs, J, c_sys, shape_name, comp):
         tp, tf, _ = prob_tols(born, 1e-8)
         ctx.num("gm:povm-on-state-vs-born", float(np.max(np.abs(np.asarray(dist.ps) - born))), tp, tf, key="compose:Povm*State:differs-from-generator-born-rule", info=info)
     rhos_ps = [ref.rand_density(d, rng, int(rng.integers(1, d + 1))) for _ in Ms]
-    for mode in (0, 1, 2):
-        label = f"Povm.generate_mprocess:mode={mode}"
+
+    def generate(pv, Ms_, mode, rl, single, info_, sfx=""):
+        """one generate_mprocess call (its contract judges the returned object); returns what `query` needs, or None"""
         judged = True
         if mode == 0:
-            sig = [ref.sqrtm_psd(M) @ rho @ ref.sqrtm_psd(M) for M in Ms]
-            call = lambda: povm.generate_mprocess(0)  # noqa: E731
+            sig = [ref.sqrtm_psd(M) @ rho @ ref.sqrtm_psd(M) for M in Ms_]
+            call = lambda: pv.generate_mprocess(0)  # noqa: E731
         elif mode == 1:
-            pairs = [mode1_expected(M) for M in Ms]
+            pairs = [mode1_expected(M) for M in Ms_]
             judged = all(p[1] for p in pairs)
             sig = [app(p[0], rho) for p in pairs]
-            call = lambda: povm.generate_mprocess(mode_backaction=1)  # noqa: E731
+            call = lambda: pv.generate_mprocess(mode_backaction=1)  # noqa: E731
         else:
-            single = rng.random() < 0.3
-            rl = [rhos_ps[0]] * len(Ms) if single else rhos_ps
-            sig = [np.trace(M @ rho) * r for M, r in zip(Ms, rl)]
+            rl = [rl[0]] * len(Ms_) if single else rl
+            sig = [np.trace(M @ rho) * r for M, r in zip(Ms_, rl)]
             pss = [gen.make_state(c_sys, r, is_physicality_required=True) for r in rl]
-            call = (lambda: povm.generate_mprocess(2, pss[0])) if single else (lambda: povm.generate_mprocess(2, post_selected_states=pss))
+            call = (lambda: pv.generate_mprocess(2, pss[0])) if single else (lambda: pv.generate_mprocess(2, post_selected_states=pss))
         ok, mp = ctx.attempt(call)
         if not ok:
-            continue  # the contract's on_exc decided
+            return None  # the contract's on_exc decided
+        q = (mp, mode, Ms_, np.array([np.trace(M @ rho).real for M in Ms_]), sig, judged, info_)
+        query(q, sfx)
+        return q
+
+    def query(q, sfx=""):
+        """the generated MProcess against the generator's operators: induced POVM, statistics and post-states on the state"""
+        mp, mode, Ms_, born_, sig, judged, info_ = q
+        label = f"Povm.generate_mprocess:mode={mode}"
         # induces the same POVM
         J.flagged = set()
         ok, pv = ctx.attempt(mp.to_povm)
         if ok and (J.is_bad(mp) or J.flagged):
             ctx.count("gm:not-judged(generated mprocess already failed its contract)")
         elif ok:
-            e = max_diff([B.F.op(v) for v in pv.vecs], Ms)
-            ctx.num("gm:to_povm-roundtrip", e if np.isfinite(e) else 1e300, *(TOL_SQRT if mode == 0 else TOL), key=f"{label}:to_povm-differs-from-povm", info=info)
+            e = max_diff([B.F.op(v) for v in pv.vecs], Ms_)
+            ctx.num("gm:to_povm-roundtrip", e if np.isfinite(e) else 1e300, *(TOL_SQRT if mode == 0 else TOL), key=f"{label}:to_povm-differs-from-povm{sfx}", info=info_)
+        elif operands_physical([mp], 1e-14):
+            ctx.violation("MProcess.to_povm:" + ctx.exc_key(pv) + sfx, info_)
         else:
-            ctx.violation("MProcess.to_povm:" + ctx.exc_key(pv), info)
+            ctx.count("exception-not-judged:to_povm:mprocess-not-physical-to-1e-14")
         J.flagged = set()
         ok, ens = ctx.attempt(comp, mp, st)
         if not ok or J.flagged:
-            continue  # the contract of the composition step decided
+            return  # the contract of the composition step decided
         base = TOL_SQRT if mode == 0 else TOL
-        tp, tf, _ = prob_tols(born, 1e-8, 1, base)
+        tp, tf, _ = prob_tols(born_, 1e-8, 1, base)
         ps = np.asarray(ens.prob_dist.ps, dtype=float)
-        if ps.shape != born.shape:
-            ctx.violation(f"{label}:outcome-count", info)
-            continue
+        if ps.shape != born_.shape:
+            ctx.violation(f"{label}:outcome-count{sfx}", info_)
+            return
         if not J.is_bad(mp):
-            ctx.num("gm:mprocess-on-state-vs-born", float(np.max(np.abs(ps - born))), tp, tf, key=f"{label}:statistics-differ-from-povm", info=info)
+            ctx.num("gm:mprocess-on-state-vs-born", float(np.max(np.abs(ps - born_))), tp, tf, key=f"{label}:statistics-differ-from-povm{sfx}", info=info_)
         if judged and not J.is_bad(mp):
             # unnormalised p_x rho_x for every outcome; the normalised post-state where p_x >= 0.05 (sqrtm error / p_x)
-            e_un = max(float(np.max(np.abs(pq * B.F.op(q.vec) - s))) for pq, s, q in zip(ps, sig, ens.states))
-            ctx.num("gm:unnormalised-post-state-vs-generator", e_un, tp, tf, key=f"{label}:post-state-on-state", info=info)
+            e_un = max(float(np.max(np.abs(pq * B.F.op(q_.vec) - s))) for pq, s, q_ in zip(ps, sig, ens.states))
+            ctx.num("gm:unnormalised-post-state-vs-generator", e_un, tp, tf, key=f"{label}:post-state-on-state{sfx}", info=info_)
             e, nj = 0.0, 0
-            for p, s, q in zip(born, sig, ens.states):
+            for p, s, q_ in zip(born_, sig, ens.states):
                 if p >= 0.05:
-                    e = max(e, float(np.max(np.abs(B.F.op(q.vec) - s / p))))
+                    e = max(e, float(np.max(np.abs(B.F.op(q_.vec) - s / p))))
                     nj += 1
             if nj:
-                ctx.num("gm:post-state-vs-generator", e, tp, tf, key=f"{label}:post-state-on-state", info=dict(info, judged=nj))
+                ctx.num("gm:post-state-vs-generator", e, tp, tf, key=f"{label}:post-state-on-state{sfx}", info=dict(info_, judged=nj))
         else:
             ctx.skip("gm:post-state-vs-generator")
+
+    first = []
+    for mode in (0, 1, 2):
+        single = bool(rng.random() < 0.3) if mode == 2 else False
+        q = generate(povm, Ms, mode, rhos_ps, single, info)
+        if q is not None:
+            first.append((q, single))
+
+    # ---------------------------------------------------------------- history: the same POVM object, asked again
+    if hrng is not None:
+        def other_states(n_):
+            return [ref.rand_density(d, hrng, int(hrng.integers(1, d + 1))) for _ in range(n_)]
+
+        # a POVM kept from the previous case of this shard (other elements, maybe another outcome count)
+        # (decisions from a stream of their own: a replay of this case alone has no kept POVM)
+        kept = hist.get("kept_povm")
+        if kept is not None:
+            kp, kMs, kinfo = kept
+            krng = ctx.rng(12)
+            generate(kp, kMs, int(krng.integers(0, 3)), [ref.rand_density(d, krng, int(krng.integers(1, d + 1))) for _ in kMs], bool(krng.random() < 0.5),
+                     dict(kinfo, state=B.descr[0]), ":re-used-object")
+            ctx.count("history:gm:kept-povm")
+        # a second POVM of the same outcome count on the same system in between
+        B2 = Builder(ctx, J, hs, c_sys, hrng)
+        kind2, Ms2, _ = B2.povm_ops(m)
+        ok, povm2 = ctx.attempt(gen.make_povm, c_sys, Ms2, is_physicality_required=True)
+        if ok:
+            generate(povm2, Ms2, int(hrng.integers(0, 3)), other_states(m), bool(hrng.random() < 0.5), dict(info, povm_kind=kind2 + "(second POVM)"))
+            ctx.count("history:gm:second-povm-in-between")
+        # the first POVM again: other order, other post-selected states, the other argument form
+        was_single = {q[1]: s for q, s in first}.get(2, False)
+        for mode in [int(x) for x in hrng.permutation(3)]:
+            generate(povm, Ms, mode, other_states(m), not was_single, info, ":second-call")
+        ctx.count("history:gm:same-povm-asked-again")
+        # ... and reached through copy() / generate_from_var
+        route = str(hrng.choice(["copy", "from-var"]))
+        pv3 = derive(ctx, povm, route)
+        if pv3 is not None:
+            generate(pv3, Ms, int(hrng.integers(0, 3)), other_states(m), bool(hrng.random() < 0.5), info, ":via-" + route)
+        # a POVM on a sibling composite system (other shape / other basis) turned into an MProcess inside a short chain
+        sibs = hist.get("sibs")
+        if sibs:
+            name, sc = sibs[int(hrng.integers(len(sibs)))]
+            ctx.count("history:gm:sibling-system-chain:" + name)
+            run_chain_case(ctx, hs, J, sc, "SMP", name, comp, plan={1: {"kind": "from-povm"}}, rng=np.random.default_rng(int(hrng.integers(1 << 62))), hist=None)
+        # the MProcesses generated first, queried again after all these calls
+        for q, _ in first:
+            query(q, ":second-call")
+        hist["kept_povm"] = (povm, Ms, dict(info))
     ctx.nontrivial("gm", shape_name, kind, m, np.array(Ms).ravel(), rho.ravel())
     if ctx.cur_case is not None and ctx.cur_case < 1:
         ctx.sample({"generate_mprocess": True, "shape": shape_name, "povm_kind": kind, "m": m, "state": B.descr[0], "born": born})
@@ -1343,13 +1654,24 @@ def run_shard(ctx):
 
     hs, J = install(ctx)
     c_sys = gen.make_csys(gen.SHAPES[p["shape"]])
+    # history: objects that live for the whole shard.  "sibs": composite systems of another shape and of the same shape with
+    # another (identity-first, orthonormal, Hermitian) basis, on which short chains are interleaved; "kept": the operands of
+    # the previous case; "kept_povm": the POVM of the previous generate_mprocess case
+    other = {"S1": "S3", "S3": "S1", "S2": "S1"}[p["shape"]]
+    hist = {"sibs": [(other, gen.make_csys(gen.SHAPES[other])), (p["shape"] + "-mixed-basis", mixed_csys(gen.SHAPES[p["shape"]]))]}
+    keep = [c_sys] + [sc for _, sc in hist["sibs"]]
+
+    def done():
+        J.bad_ids.clear()
+        J.frames.trim(keep)
+
     try:
         comp = ops.compose_qoperations  # the hooked public entry point
         if p["kind"] == "chain":
             pats = p["patterns"]
             for i in ctx.cases(len(pats) * p["reps"]):
-                run_chain_case(ctx, hs, J, c_sys, pats[i % len(pats)], p["shape"], comp)
-                J.bad_ids.clear()
+                run_chain_case(ctx, hs, J, c_sys, pats[i % len(pats)], p["shape"], comp, hist=hist)
+                done()
         elif p["kind"] == "edge":
             # a branch of weight w just above eps_zero entering a second measurement: some of its outcomes fall below the
             # threshold (zeroed, rest renormalised), the others must keep their probability and a normalised post-state
@@ -1370,12 +1692,12 @@ def run_shard(ctx):
                 plan = {"counts": counts, 0: {"kind": "pure"},
                         pos[0]: {"kind": "lueders", "povm_kind": "rank1", "p_target": w, "eps_zero": 1e-8, "track": 0},
                         pos[1]: {"kind": "generic", "eps_zero": eps}}
-                run_chain_case(ctx, hs, J, c_sys, pat, p["shape"], comp, plan=plan)
-                J.bad_ids.clear()
+                run_chain_case(ctx, hs, J, c_sys, pat, p["shape"], comp, plan=plan, hist=hist, label="edge")
+                done()
         else:
             for i in ctx.cases(p["cases"]):
-                run_gm_case(ctx, hs, J, c_sys, p["shape"], comp)
-                J.bad_ids.clear()
+                run_gm_case(ctx, hs, J, c_sys, p["shape"], comp, hist=hist)
+                done()
     finally:
         hs.uninstall()
     ctx.extra["hook_counts"] = hs.counts
